@@ -161,7 +161,8 @@ def unquote(string, only_printable=False, unsafe=None, normalize_space=False):
 # NOTE: "%" itself must remain escaped, else the result would be decoded twice
 # by whoever unquotes it next. The same goes for any character delimiting the
 # component (or changing its meaning such as "+" in a query).
-UNSAFE_FOR_AUTH_ITEM = b" %@:/?#"
+# NOTE: the standard parser rejects a netloc holding a stray bracket
+UNSAFE_FOR_AUTH_ITEM = b" %@:/?#[]"
 UNSAFE_FOR_PATH = b" %/?#"
 UNSAFE_FOR_QUERY_ITEM = b" %&=#+"
 UNSAFE_FOR_FRAGMENT = b" %"
